@@ -241,7 +241,7 @@ Section Safe.
 
   Lemma step_inv g t : Inv g -> Inv (step c prog g t).
   Proof.
-    intros HI. unfold step. rewrite (inv_ab g HI).
+    intros HI. unfold step, step_gen. rewrite (inv_ab g HI).
     destruct (stack (threads g t)) as [|[[r ty] p] rest] eqn:Hst; [exact HI|].
     pose proof (inv_th g HI t) as Hth. unfold thread_ok in Hth. rewrite Hst in Hth.
     destruct Hth as (bot & Htop & Hlow & Hres & Hch).
@@ -564,7 +564,7 @@ Section Safe.
                 (tmeas th' < tmeas (threads g t))%nat.
   Proof.
     intros HI Hen. unfold enabled in Hen. rewrite (inv_ab g HI) in Hen. cbn [negb andb] in Hen.
-    unfold step. rewrite (inv_ab g HI).
+    unfold step, step_gen. rewrite (inv_ab g HI).
     destruct (stack (threads g t)) as [|[[r ty] p] rest] eqn:Hst; [discriminate Hen|].
     pose proof (inv_th g HI t) as Hth. unfold thread_ok in Hth. rewrite Hst in Hth.
     destruct Hth as (bot & Htop & Hlow & Hres & Hch).
